@@ -33,7 +33,7 @@ func runCmdTier(env *kernel.Env, scr string, progs []progRef) (map[string]any, [
 	}
 	nsched := 10
 	if env.Tier == "thorough" {
-		nsched = 120
+		nsched = 60
 	}
 	sort.SliceStable(progs, func(i, j int) bool { return len(progFiles(env, progs[i])) > len(progFiles(env, progs[j])) })
 	if len(progs) > 8 {
